@@ -2,6 +2,7 @@
 
 mod dump;
 mod expr;
+mod locks;
 mod prim;
 mod rec;
 mod run;
@@ -13,6 +14,7 @@ use std::env;
 fn main() {
     run::install_panic_hook();
     rec::install_hook();
+    locks::install();
     rufsm::tracer::set_tracer_factory(Box::new(rec::RecFactory {}));
     let args: Vec<String> = env::args().collect();
     if args.len() < 2 {
